@@ -15,7 +15,7 @@ def gen(tool):
 def main():
     p = os.path.join(VERIF, 'DESIGN.md')
     s = open(p).read()
-    for marker, tool in (('ASBUILT', 'asbuilt_table.py'), ('SEEDED-TABLE', 'seed_table.py')):
+    for marker, tool in (('ASBUILT', 'asbuilt_table.py'), ('SEEDED-TABLE', 'seed_table.py'), ('TRUSTED', 'trusted_table.py')):
         pat = re.compile(rf'(<!-- {marker}-BEGIN -->\n).*?(<!-- {marker}-END -->)', re.S)
         if not pat.search(s):
             print('marker missing:', marker)
